@@ -130,3 +130,7 @@ mod test {
         assert_matches!(iter.next(), None);
     }
 }
+
+// verification hook: harness text lives outside the repository (see MANIFEST.hooks)
+#[cfg(any(kani, sudachi_verif))]
+include!(concat!(env!("SUDACHI_VERIF_DIR"), "/dic__category_type.rs"));
